@@ -1613,6 +1613,36 @@ func pathCases(r *Rng, n int, st *Stats, cf *CoqFile) {
 			}
 		}
 	}
+	// N: a directory whose NAME contains backslashes: PathRelativeToOutbase turns them into
+	// slashes (also on Unix) after Rel, which creates parent-directory segments in the middle
+	{
+		bsEntry := "src/a\\..\\..\\..\\b/e.js"
+		os.MkdirAll(filepath.Dir(filepath.Join(root, bsEntry)), 0o755)
+		os.WriteFile(filepath.Join(root, bsEntry), []byte("console.log(1)\n"), 0o644)
+		res := api.Build(api.BuildOptions{AbsWorkingDir: root, EntryPoints: []string{bsEntry}, Outdir: "out/deep", Outbase: "src", EntryNames: "[dir]/[name]", LogLevel: api.LogLevelSilent, Write: false})
+		if len(res.Errors) == 0 && len(res.OutputFiles) == 1 {
+			got := res.OutputFiles[0].Path
+			outs = append(outs, fmt.Sprintf("(%s,%s,%s,%s,[],%s,%s)", cpath("[dir]/[name]"), cpath(filepath.Join(root, "out/deep")), cpath(filepath.Join(root, "src")), cpath(filepath.Join(root, bsEntry)), cpath(".js"), cpath(got)))
+			st.Note("path:entry-output-backslash-name", bsEntry, true)
+			if !under(filepath.Join(root, "out/deep"), got) {
+				st.Fail("output-outside-outdir", map[string]interface{}{"scenario": "backslash-in-directory-name-escapes-outdir", "entry": bsEntry, "outdir": "out/deep", "outbase": "src", "entryNames": "[dir]/[name]"}, got, "inside "+filepath.Join(root, "out/deep"))
+			}
+		}
+	}
+	// L: fixed replay (entry named "...js")
+	{
+		res := api.Build(api.BuildOptions{AbsWorkingDir: root, EntryPoints: []string{"src/...js"}, Outdir: "out", Outbase: "src", EntryNames: "[name]/x", LogLevel: api.LogLevelSilent, Write: false})
+		if len(res.Errors) == 0 && len(res.OutputFiles) == 1 {
+			got := res.OutputFiles[0].Path
+			outs = append(outs, fmt.Sprintf("(%s,%s,%s,%s,[],%s,%s)", cpath("[name]/x"), cpath(filepath.Join(root, "out")), cpath(filepath.Join(root, "src")), cpath(filepath.Join(root, "src/...js")), cpath(".js"), cpath(got)))
+			if !under(filepath.Join(root, "out"), got) {
+				knownSeen["output-outside-outdir"]++
+				if knownSeen["output-outside-outdir"] <= 2 {
+					st.Fail("output-outside-outdir", map[string]interface{}{"scenario": "entry-named-dotdot-escapes-outdir", "entry": "src/...js", "outdir": "out", "outbase": "src", "entryNames": "[name]/x"}, got, "inside "+filepath.Join(root, "out"))
+				}
+			}
+		}
+	}
 	// explicit output paths of entry points ({in, out})
 	customs := []string{"x/y", "../../esc", "a.b", filepath.Join(root, "out/deep/q"), filepath.Join(root, "elsewhere/z"), "./k", "sub/../w"}
 	for i := 0; i < ne/2; i++ {
